@@ -87,6 +87,10 @@ type chainRun struct {
 	viol  hx.Sx // first violation
 	stats map[string]int
 	pm    *poolRun // nil: a fresh Event + Root per input event
+	// the per-processor streams (procs.go): light = the per-Do re-parse / buffer poisoning is left to the other
+	// streams (thousands of Do calls per case); onOut receives every event that leaves the chain and its encoding
+	light bool
+	onOut func(e *pipeline.Event, enc []byte)
 }
 
 type chainCtl struct {
@@ -164,6 +168,9 @@ func (r *chainRun) out(e *pipeline.Event) {
 		return
 	}
 	r.outs = append(r.outs, outEvent{ev: e, enc: e.Root.Encode(nil), at: r.cur})
+	if r.onOut != nil {
+		r.onOut(e, r.outs[len(r.outs)-1].enc)
+	}
 }
 
 // commit: the first n events that reached the output are acknowledged. LATE observation: each is
@@ -215,7 +222,7 @@ func (r *chainRun) back(e *pipeline.Event) {
 
 // checkEvent: the event still is a well-formed JSON document that encodes and re-parses.
 func (r *chainRun) checkEvent(e *pipeline.Event, k int, when string) bool {
-	if e.Root == nil {
+	if e.Root == nil || r.light {
 		return true
 	}
 	if e.IsChildParentKind() {
@@ -374,7 +381,7 @@ func normTree(v hx.Sx) string {
 // of the chain). An event that changes when those bytes are overwritten holds a node whose data
 // lies beyond len(event.Buf): the plugin appended to a copy of the slice header and did not store it.
 func (r *chainRun) checkBufAlias(e *pipeline.Event, k int) bool {
-	if e.Root == nil || e.IsChildParentKind() || cap(e.Buf) == len(e.Buf) {
+	if r.light || e.Root == nil || e.IsChildParentKind() || cap(e.Buf) == len(e.Buf) {
 		return true
 	}
 	before := e.Root.Encode(nil)
